@@ -590,11 +590,26 @@ ESCAPE_TEMPLATES = {
         "deep/../../../B_evil/data.bin", "../../Blink/data.bin",
     ],
 }
+ESCAPE_TEMPLATES["work/B"] += [
+    "../b/data.bin", "../b/other.bin", "../b/only_b.bin", "../b/sub/inner.bin", "../B./data.bin", "../B /data.bin",
+    "../\uff22/data.bin", "../blink/data.bin", "sub/../../b/data.bin", "$R/work/b/data.bin", "$R/work/b/only_b.bin",
+    "$R/work/B./data.bin", "$R/work/B /data.bin", "$R/work/\uff22/data.bin", "$R/work/B/../b/data.bin",
+    "ln_case_dir/data.bin", "ln_case_dir/only_b.bin", "ln_case_dir/sub/inner.bin", "ln_case_file", "ln_dotted_dir/data.bin",
+    "ln_spaced_file", "ln_wide_dir/data.bin", "Other.bin", "Hl_Inside_A.bin", "ln_parent/b/data.bin",
+    "ln_out_dir/../work/b/data.bin",
+]
+ESCAPE_TEMPLATES["work/B/sub"] += [
+    "../Sub/inner.bin", "../SUB/inner.bin", "../\u017fub/inner.bin", "../sub./inner.bin", "../sub /inner.bin",
+    "$R/work/B/Sub/inner.bin", "$R/work/B/SUB/inner.bin", "$R/work/B/\u017fub/inner.bin", "$R/work/B/sub./inner.bin",
+    "$R/work/B/sub /inner.bin", "ln_case_dir/inner.bin", "ln_case_file", "ln_longs_file", "ln_dotted_dir/inner.bin",
+    "deep/../../SUB/inner.bin", "../../b/sub/inner.bin", "$R/work/b/sub/inner.bin", "../DATA.bin",
+]
 ALLOWED_TEMPLATES = {
     "work/B": ["data.bin", "other.bin", "sub/inner.bin", "sub/deep/d.bin", "sub_evil/e.bin", "ln_in_file",
                "ln_in_file_abs", "ln_in_dir/inner.bin", "ln_chain_in", "ln_self/data.bin", "ln_parent/B/data.bin",
                "../B/data.bin", "sub/ln_up_file", "sub/ln_in_file", "$R/work/B/data.bin", "./data.bin",
-               "sub/../data.bin", "sub//inner.bin", "ln_out_dir/../work/B/data.bin", "sub/ln_sib_dir/e.bin"],
+               "sub/../data.bin", "sub//inner.bin", "ln_out_dir/../work/B/data.bin", "sub/ln_sib_dir/e.bin",
+               "DATA.bin", "Sub/inner.bin", "SUB/inner.bin", "sub./inner.bin", "sub/ln_case_file"],
     "work/B/sub": ["inner.bin", "deep/d.bin", "ln_in_file", "../sub/inner.bin", "deep/../inner.bin",
                    "$R/work/B/sub/inner.bin", "./deep//d.bin"],
 }
@@ -654,6 +669,8 @@ def _decorate(rng, comps: list[str]) -> str:
 
 def gen_location(rng, sb: Sandbox, target: str) -> tuple[str, str]:
     """-> (location template with $R for the sandbox root, style)."""
+    if is_fold_target(target):
+        return gen_fold_location(rng, sb, target)
     base_abs = f"{sb.R}/{target}"
     r = rng.random()
     if r < 0.50:
@@ -679,8 +696,57 @@ def gen_location(rng, sb: Sandbox, target: str) -> tuple[str, str]:
     return "/".join(rng.choice(alphabet) for _ in range(n)), "junk"
 
 
+FOLD_LOCATION_FORMS = [
+    "../{v}/data.bin", "../{v}/sub/inner.bin", "../{v}/only{j}.bin", "$R/fold/{v}/data.bin", "/$R/fold/{v}/only{j}.bin",
+    "$R/fold/{v}/sub/inner.bin", "ln_d{j}/data.bin", "ln_d{j}/sub/inner.bin", "ln_d{j}/only{j}.bin", "ln_f{j}",
+    "sub/../../{v}/data.bin", "sub/../ln_d{j}/only{j}.bin", "sub/../ln_f{j}", "$R/fold/{b}/../{v}/data.bin",
+    "$R/fold/{b}/ln_f{j}", "$R/fold/{b}/ln_d{j}/data.bin", "../../fold/{v}/data.bin", "../via{j}/data.bin",
+    "$R/fold/via{j}/only{j}.bin", "ln_d{j}/../{v}/sub/inner.bin",
+]
+FOLD_ALLOWED_FORMS = ["data.bin", "sub/inner.bin", "only{i}.bin", "../{b}/data.bin", "$R/fold/{b}/data.bin",
+                      "ln_d{j}/../{b}/sub/inner.bin", "sub/../data.bin", "./sub//inner.bin", "../via{i}/data.bin"]
+
+
+def gen_fold_location(rng, sb: Sandbox, target: str) -> tuple[str, str]:
+    """Locations for a base directory of the fold family: guided walks (which meet the links to
+    the neighbours and '..'), and forms that lead lexically / absolutely / through a symlinked
+    file / through a symlinked directory into a neighbour whose name folds to the base's."""
+    i = FOLD_TARGETS.index(target)
+    r = rng.random()
+    if r < 0.22:
+        return _decorate(rng, _walk(rng, f"{sb.R}/{target}", rng.randint(1, 6), sb.R)), "fold-walk"
+    j = rng.choice([k for k in range(len(FOLD_NAMES)) if k != i])
+    if r < 0.36:
+        form, style = rng.choice(FOLD_ALLOWED_FORMS), "fold-allowed-template"
+    else:
+        form, style = rng.choice(FOLD_LOCATION_FORMS), "fold-escape-template"
+    t = form.format(v=FOLD_NAMES[j], b=FOLD_NAMES[i], i=i, j=j)
+    if rng.random() < 0.3 and not t.startswith(("$R", "/")):
+        t = _decorate(rng, t.split("/"))
+    return t, style
+
+
+def _fold_base_spellings(target: str) -> list[tuple[str, str, str]]:
+    parent, name = os.path.split(target)
+    i = FOLD_TARGETS.index(target)
+    return [
+        ("abs", "work", f"$R/{target}"), ("abs", "outside", f"$R/{target}"), ("abs", "fold", f"$R/{target}"),
+        ("abs-trailing-sep", "work", f"$R/{target}/"), ("abs-trailing-dot", "work", f"$R/{target}/."),
+        ("abs-nonnormalised", "work", f"$R/{parent}/../{parent}/{name}"), ("abs-nonnormalised", "work", f"$R//{target}"),
+        ("abs-nonnormalised", "work", f"$R/{target}/sub/.."), ("abs-double-slash-root", "work", f"/$R/{target}"),
+        ("rel", parent, name), ("rel", "", target), ("rel-dot-prefix", parent, f"./{name}"),
+        ("rel-trailing-sep", parent, f"{name}/"), ("rel-dotdot", "outside", f"../{target}"),
+        ("rel-dotdot", f"{target}/sub", ".."), ("dot", target, "."), ("dot", target, "./"),
+        ("via-symlink-abs", "work", f"$R/fold/via{i}"), ("via-symlink-rel", "fold", f"via{i}"),
+        # through the link a NEIGHBOUR keeps to this directory
+        ("via-symlink-abs", "work", f"$R/fold/{FOLD_NAMES[(i + 1) % len(FOLD_NAMES)]}/ln_d{i}"),
+    ]
+
+
 def base_spellings(target: str) -> list[tuple[str, str, str]]:
     """(class, cwd relative to R, base template)."""
+    if is_fold_target(target):
+        return _fold_base_spellings(target)
     parent, name = os.path.split(target)
     viasym = target.replace("work/B", "work/Blink", 1)
     out = [
@@ -723,6 +789,24 @@ def base_spellings(target: str) -> list[tuple[str, str, str]]:
 def load_spellings(target: str, fname: str) -> list[tuple[str, str, str, bool]]:
     """(class, cwd relative to R, model path template, judged?) for ir.load."""
     parent, name = os.path.split(target)
+    if is_fold_target(target):
+        i = FOLD_TARGETS.index(target)
+        return [
+            ("abs", "outside", f"$R/{target}/{fname}", True),
+            ("abs-nonnormalised", "work", f"$R/{target}/./{fname}", True),
+            ("abs-nonnormalised", "work", f"$R/{target}/../{name}/{fname}", True),
+            ("rel", parent, f"{name}/{fname}", True),
+            ("rel", "", f"{target}/{fname}", True),
+            ("rel-dot-prefix", parent, f"./{name}/{fname}", True),
+            ("rel-nonnormalised", parent, f"{name}/sub/../{fname}", True),
+            ("dot-slash-name", target, f"./{fname}", True),
+            ("bare-filename", target, fname, True),
+            ("bare-filename", f"fold/via{i}", fname, True),
+            ("rel-dotdot", f"{target}/sub", f"../{fname}", True),
+            ("rel-dotdot", "outside", f"../{target}/{fname}", True),
+            ("via-symlink-abs", "outside", f"$R/fold/via{i}/{fname}", True),
+            ("via-symlink-rel", "fold", f"via{i}/{fname}", True),
+        ]
     viasym = target.replace("work/B", "work/Blink", 1)
     child = "deep" if target.endswith("sub") else "sub"
     return [
